@@ -697,6 +697,7 @@ def r1_10(ctx, rc):
     # the comparisons of R1.4 are JSON equality: its structural rules
     c18.r18_3(ctx, rc)
     c18.r18_5(ctx, rc)
+    c18.r18_7(ctx, rc)
 
 
 def r1_11(ctx, rc):
@@ -717,8 +718,13 @@ def returned_value_is_the_records(ctx, rc):
     R = ctx.R
     prog = ctx.prog
     n = 0
-    for fname in ('_build_file', '_subbuild'):
-        F = R.builder_f(fname)
+    todo = [R.builder_f(fname) for fname in ('_build_file', '_subbuild')]
+    seen_f = set()
+    while todo:
+        F = todo.pop(0)
+        if F.qualname in seen_f:
+            continue
+        seen_f.add(F.qualname)
         cfg = ctx.E.cfgs.get(F)
         n0 = n
         for rn in cfg.nodes:
@@ -747,7 +753,13 @@ def returned_value_is_the_records(ctx, rc):
                                                 ast.unparse(v)[:60]),
                     prog.loc(F, rn.ast), key=key)
         if n == n0:
-            raise AnalysisError('%s returns no value' % F.qualname)
+            # a procedure that hands nothing back: its callers read the
+            # record themselves - the public ones are checked instead
+            up = [c for c, _call in prog.callers().get(F.qualname, [])
+                  if c.cls == R.builder]
+            if not up or F.is_public:
+                raise AnalysisError('%s returns no value' % F.qualname)
+            todo.extend(up)
 
 
 RULES = [
